@@ -23,7 +23,7 @@ class Contract:
     def __init__(self, id, func, call, params=None, bind=None, requires=(), ref=None, compare=("result", "exc"),
                  props=(), applies=None, assumed=False, known=(), note="", setup=(), ensures=(), raises_only=None,
                  loops=None, inline=(), timeout=None, ghost=None, max_paths=None, use_contracts=True, exc_compare="class",
-                 replay=True, bounded=None, ensures_exc=(), nondet=False, no_entry_check=False, callsite=True, tier="quick", callsite_ref=None, callsite_ensures=()):
+                 replay=True, bounded=None, ensures_exc=(), nondet=False, no_entry_check=False, callsite=True, tier="quick", callsite_ref=None, callsite_ensures=(), enum=None):
         self.id = id
         self.func = func
         self.call = call
@@ -54,6 +54,7 @@ class Contract:
         self.callsite_ref = callsite_ref  # what callers see instead of `ref` (usually an abstraction of it)
         self.callsite_ensures = list(callsite_ensures)  # proved for the callee (part of ensures) and assumed by callers
         self.ensures = self.ensures + [e for e in self.callsite_ensures if e not in self.ensures]
+        self.enum = enum              # callable(tier) -> iterable of {param: value}: exhaustive native enumeration (bounded stand-in)
         self.tier = tier              # "thorough": only verified in the thorough tier
         self.callsite = callsite      # False: never substituted for the callee at call sites
         self.ensures_exc = list(ensures_exc)  # postconditions on exceptional exit (over params and `exc`)
